@@ -490,6 +490,7 @@ qb_vsnprintf_serialize(char *serialize, size_t max_len,
 	char *qb_xc;
 	int type_long = QB_FALSE;
 	int type_longlong = QB_FALSE;
+	int type_longdouble = QB_FALSE;
 	size_t sformat_length = 0;
 	int sformat_precision = QB_FALSE;
 	uint32_t location = my_strlcpy(serialize, fmt, max_len) + 1;
@@ -515,6 +516,7 @@ qb_vsnprintf_serialize(char *serialize, size_t max_len,
 	for (;;) {
 		type_long = QB_FALSE;
 		type_longlong = QB_FALSE;
+		type_longdouble = QB_FALSE;
 		sformat_length = 0;
 		sformat_precision = QB_FALSE;
 		p = strchrnul((const char *)format, '%');
@@ -579,6 +581,10 @@ reprocess:
 				type_longlong = QB_TRUE;
 				format++;
 			}
+			goto reprocess;
+		case 'L':
+			format++;
+			type_longdouble = QB_TRUE;
 			goto reprocess;
 		case 'z':
 			format++;
@@ -655,7 +661,19 @@ reprocess:
 		case 'G':
 		case 'a':
 		case 'A':
-			{
+			if (type_longdouble) {
+				long double arg_ldouble;
+
+				if (location + sizeof (long double) > max_len) {
+					return max_len;
+				}
+				arg_ldouble = va_arg(ap, long double);
+				memcpy (&serialize[location], &arg_ldouble,
+					sizeof (long double));
+				location += sizeof(long double);
+				format++;
+				break;
+			} else {
 			double arg_double;
 
 			if (location + sizeof (double) > max_len) {
@@ -729,6 +747,15 @@ reprocess:
 			format++;
 			break;
 
+		default:
+			/*
+			 * A conversion we do not know: how much it takes
+			 * from the argument list is unknown as well, and
+			 * every argument behind it would be taken for
+			 * something it is not (a number for the pointer of
+			 * a "%s").  The arguments end here.
+			 */
+			return (location);
 		}
 	}
 	return (location);
@@ -755,6 +782,7 @@ qb_vsnprintf_deserialize_n(char *string, size_t str_len, const char *buf,
 	size_t data_pos;
 	int type_long = QB_FALSE;
 	int type_longlong = QB_FALSE;
+	int type_longdouble = QB_FALSE;
 	int mod_pos = 0;	/* where the length modifier starts in fmt */
 	int len;
 
@@ -768,6 +796,7 @@ qb_vsnprintf_deserialize_n(char *string, size_t str_len, const char *buf,
 	for (;;) {
 		type_long = QB_FALSE;
 		type_longlong = QB_FALSE;
+		type_longdouble = QB_FALSE;
 		mod_pos = 0;
 		if (location >= str_len) {
 			/* output truncated, nothing more fits */
@@ -852,6 +881,14 @@ reprocess:
 				type_long = QB_FALSE;
 				type_longlong = QB_TRUE;
 			}
+			goto reprocess;
+		case 'L':
+			if (mod_pos == 0) {
+				mod_pos = fmt_pos;
+			}
+			fmt[fmt_pos++] = *format;
+			format++;
+			type_longdouble = QB_TRUE;
 			goto reprocess;
 		case 'z':
 			if (mod_pos == 0) {
@@ -951,7 +988,23 @@ reprocess:
 		case 'G':
 		case 'a':
 		case 'A':
-			{
+			if (type_longdouble) {
+				long double arg_ldouble;
+
+				if (buf_len - data_pos < sizeof(long double)) {
+					goto out_of_data;
+				}
+				fmt[fmt_pos++] = *format;
+				fmt[fmt_pos++] = '\0';
+				memcpy(&arg_ldouble, &buf[data_pos],
+				       sizeof(long double));
+				location += snprintf(&string[location],
+						     str_len - location,
+						     fmt, arg_ldouble);
+				data_pos += sizeof(long double);
+				format++;
+				break;
+			} else {
 			double arg_double;
 
 			if (buf_len - data_pos < sizeof(double)) {
